@@ -175,6 +175,29 @@ func init() {
 		}
 		return nil
 	}
+	// EmptyNthSlice(root any, n int, exemptTypes ...string) bool: only the n-th non-empty
+	// slice in walk order is cut to length zero (false: there are fewer).
+	externals[rt+"EmptyNthSlice"] = func(fr *frame, args []value) value {
+		h := &heapVisitor{in: fr.i, seen: map[*value]bool{}, exempt: exemptSet(args[2])}
+		n, idx := int(asInt64(args[1])), 0
+		var cell *value
+		var cutS []value
+		h.onSlice = func(c *value, s []value, _ types.Type) {
+			if c != nil && len(s) > 0 {
+				if idx == n {
+					cell, cutS = c, s
+				}
+				idx++
+			}
+		}
+		it := args[0].(iface)
+		h.walk(it.v, it.t, nil, 0)
+		if cell == nil {
+			return false
+		}
+		*cell = cutS[:0]
+		return true
+	}
 	// ReachablePointers(root any, pkgPath string) []any: every pointer to a named struct
 	// type of package pkgPath reachable from root, each once, as interface values.
 	externals[rt+"ReachablePointers"] = func(fr *frame, args []value) value {
